@@ -200,7 +200,7 @@ func c11Pool(seed int64, idx int) []c11Call {
 	var vals []val
 	for i := 0; i < 14; i++ {
 		t, _ := gen.Type(r, 3, gen.TypeOpts{})
-		v := gen.Value(r, t, 3, gen.ValOpts{})
+		v := gen.Value(r, t, 3, gen.ValOpts{ValidKeys: true})
 		vals = append(vals, val{v.Interface(), t.String()})
 	}
 	big := strings.Repeat("0123456789abcdef<&>é", 200+r.Intn(6000))
